@@ -99,7 +99,7 @@ pub fn hold_case(rep: &mut Report, seed: u64, idx: u64, verbose: bool) {
         }
         let (napps, turn_bound) = match &run.world.stations[i].apps {
             RingApp::None => (0usize, 0usize),
-            RingApp::Live(_) => (1, 3),
+            RingApp::Live(_) | RingApp::Scan(_) => (1, 3),
             RingApp::Traffic(a) => (1, a.inner.max_per_cycle as usize + 3),
             // round-robin in application cycles: between two turns of one application every other
             // application gets one cycle (a burst + the declining ask); with an expired hold time
